@@ -28,7 +28,7 @@ def run(c):
     g = _txncfg.gen(c, "a", MaxStores=2, MaxTxns=5, MaxOps=c.pick(14, 30), Keys=12, DupStores=True, BigValues=[0, 0, 3000])
     sets.append(("seq", txnlib.run_driver(c, binp, "seq", _txncfg.cfg(c, "seq", c.pick(40, 300), g, child=1))))
     gf = _txncfg.gen(c, "f", MaxTxns=3, MaxOps=10, Keys=10, Slots=[2, 4], Rollbacks=False)
-    sets.append(("fault", txnlib.run_driver(c, binp, "fault", _txncfg.cfg(c, "fault", c.pick(2, 10), gf, max_fault=c.pick(12, 0), audit=True), timeout=c.pick(900, 3400))))
+    sets.append(("fault", txnlib.run_driver(c, binp, "fault", _txncfg.cfg(c, "fault", c.pick(2, 10), gf, max_fault=c.pick(12, 0), directed_max=c.pick(16, 0), audit=True), timeout=c.pick(900, 3400))))
     sets.append(("crash", c08.run_crash(c, binp, "crash10")))
     gs = _txncfg.gen(c, "r", MaxTxns=5, MaxOps=6, Keys=8)
     sets.append(("stores", txnlib.run_driver(c, binp, "stores", _txncfg.cfg(c, "stores", c.pick(30, 300), gs, faults=True))))
